@@ -1,6 +1,7 @@
 package main
 
 import (
+	"os"
 	"fmt"
 	"go/token"
 	"go/types"
@@ -197,6 +198,9 @@ func (fr *Frame) applySpec(sp *FuncSpec, fn *ssa.Function, name string, args []V
 		if err != nil {
 			if strings.HasPrefix(err.Error(), "unknown name") {
 				// clause about the callee's own locals (ghost use): proved inside the callee, not usable here
+				if os.Getenv("GOVC_DEBUG_SPEC") != "" {
+					fmt.Fprintf(os.Stderr, "skipped clause %q of %s: %v\n", en.Text, shortFn(name), err)
+				}
 				continue
 			}
 			u.unsupportedf("ensures %q of %s: %v", en.Text, shortFn(name), err)
